@@ -77,7 +77,8 @@ def run_history(history):
             else:
                 registry = stages.make_registry(tuple(call.get("kinds", ("IntString", "FloatString", "BooleanString"))),
                                                 datetime=call.get("datetime", False))
-                reg, _ = stages.build_registry([tuple(x) for x in call["inputs"]], registry, cmps_from(call["cmps"]))
+                reg, _ = stages.build_registry([tuple(x) for x in call["inputs"]], registry, cmps_from(call["cmps"]),
+                                               call.get("dictFields", ()), call.get("dictRegex", ()))
             regs.append(reg)
             out.append({"text": stages.render_impl(reg, call["job"])})
         except Exception as e:  # noqa
